@@ -20,7 +20,8 @@ Inductive obs :=
 | OBegin (ety : string) (etag : nat)           (* on_event_received *)
 | ODone (out : option Z)                       (* on_done hook (machine completed) *)
 | OCut (which : nat)                           (* a bound was hit: 0 drain, 1 settle, 2 raise chain *)
-| OErr (e : err).                              (* an error escaped the processing of one event *)
+| OErr (e : err)                               (* an error escaped the processing of one event *)
+| OCan (b : bool).                             (* answer of can(event), probed by the harness before a send *)
 
 Record st := {
   s_cfg : config;
@@ -154,7 +155,10 @@ Definition resolve_history (m : machine) (H : list (nat * list nat)) (h : nat) :
     match hist_get H p with
     | [] => match n_hist_default (nd m h) with
             | Some t => [t]
-            | None => match n_initial (nd m p) with Some i => [i] | None => [] end
+            | None => match n_initial (nd m p) with
+                      | Some i => [i]
+                      | None => if is_parallel m p then [p] else []
+                      end
             end
     | rem =>
       match kind_of m h with
